@@ -35,3 +35,13 @@ def all_in(xs, n, choices):
     if n <= 0:
         return True
     return xs[n - 1] in choices and all_in(xs, n - 1, choices)
+
+
+@REG.spec([Str], Str, uninterpreted='py_sanitize_prefix')
+def sanitized(p):
+    """abstract normal form of a prefix (OptionStore.sanitize_prefix)"""
+    import os
+    p = os.path.expanduser(p)
+    if (p.endswith('/') or p.endswith('\\')) and len(p) > 1 and not (len(p) == 3 and p[1] == ':'):
+        p = p[:-1]
+    return p
